@@ -188,6 +188,8 @@ pub enum WriteMode {
     AcceptAtMost(usize),
     Error(ErrorKind),
     Pending,
+    /// back-pressure: accept this many more bytes, then stay pending until the mode is changed
+    BlockAfter(usize),
 }
 
 pub struct IoState {
@@ -335,9 +337,15 @@ impl AsyncWrite for ScriptIo {
                 Poll::Ready(Ok(n))
             }
             WriteMode::Error(kind) => Poll::Ready(Err(std::io::Error::from(kind))),
-            WriteMode::Pending => {
+            WriteMode::Pending | WriteMode::BlockAfter(0) => {
                 st.write_waker = Some(cx.waker().clone());
                 Poll::Pending
+            }
+            WriteMode::BlockAfter(n) => {
+                let k = std::cmp::min(n, buf.len());
+                st.writes.push(buf[..k].to_vec());
+                st.write_mode = WriteMode::BlockAfter(n - k);
+                Poll::Ready(Ok(k))
             }
         }
     }
